@@ -62,6 +62,18 @@ var ruleRuneWrite = &Rule{
 					}
 				}
 			}
+			// … or behind a named character test that accepts ASCII only
+			// (`isHex(c)`, computed exactly over every code point)
+			for _, f := range factsAt(ins.Block()) {
+				pc, ok := f.Cond.(*ssa.Call)
+				if !ok || !f.Truth || pc.Call.IsInvoke() || len(pc.Call.Args) != 1 || !sameValue(pc.Call.Args[0], src) {
+					continue
+				}
+				if acc, ok := p.ccAccepted(pc.Call.StaticCallee()); ok && len(acc) > 0 && acc[0].lo >= 0 && acc[len(acc)-1].hi < 0x80 {
+					out.ok(key, p.pos(ins.Pos()), fnName(fn), "narrowed below "+pc.Call.StaticCallee().Name()+", which accepts ASCII characters only")
+					return
+				}
+			}
 			out.viol(key, p.pos(ins.Pos()), fnName(fn), "a computed "+src.Type().String()+" is narrowed to a byte and written into the token text: values ≥ 0x80 become a raw (invalid UTF-8) byte instead of the code point")
 		}
 		for _, fn := range fns {
